@@ -163,8 +163,173 @@ def u_common_names(sess, tier):
             fails, n, "0..3 common names over a 3-name alphabet (with repetitions)")
 
 
+# ------------------------------------------------------------------ C18: the policy directory monitor
+def u_policy_monitor(sess, tier):
+    """The REAL PolicyDirectoryMonitor.scan_policies (and read_policy_from_file / parse_policy under
+    it) is driven through every sequence of directory events up to a depth, a scan after each
+    event, and compared after every scan with the abstract specification written from the property:
+    every non-reserved name maps to its definition in the most recently loaded file that still
+    defines it; a file that fails to load changes nothing; reserved names are never touched.
+    Only the three file-system touch points (directory listing, mtime, open) are replaced by an
+    in-memory directory.  Bound: see `bound` below."""
+    import copy
+    import io
+    import json
+    import logging
+    import signal
+    from unittest import mock
+    from kmip.core import enums, policy as core_policy
+    from kmip.services.server import monitor as MON
+
+    files = ['a.json', 'b.json', 'c.json'][:2 if tier == 'quick' else 3]
+    depth = 4
+    D = {'d1': {'CERTIFICATE': {'LOCATE': 'ALLOW_ALL'}}, 'd2': {'CERTIFICATE': {'LOCATE': 'ALLOW_OWNER'}}}
+    contents = [{'p': 'd1'}, {'p': 'd2'}, {'q': 'd1'}, {'p': 'd1', 'q': 'd2'}, {}, {'default': 'd2', 'p': 'd2'}]
+    BAD = ['{ not json', json.dumps({'p': {'CERTIFICATE': {'NO_SUCH_OPERATION': 'ALLOW_ALL'}}}),
+           json.dumps({'p': {'preset': D['d1'], 'bogus-section': {}}}),
+           json.dumps({'p': {'CERTIFICATE': {'LOCATE': 'ALLOW_SOMETIMES'}}}),
+           json.dumps({'p': {'NO_SUCH_TYPE': {'LOCATE': 'ALLOW_ALL'}}}),
+           '[1, 2]', json.dumps({'p': 5}), json.dumps({'p': {'preset': 7}}),
+           json.dumps({'p': {'CERTIFICATE': 'ALLOW_ALL'}})]
+    events = [('write', f, i) for f in files for i in range(len(contents))] + \
+             [('break', f, i) for f in files for i in (range(len(BAD)) if tier != 'quick' else (0, 2, 5, 6, 8))] + \
+             [('remove', f, 0) for f in files]
+    parsed = {k: core_policy.parse_policy(v) for k, v in D.items()}
+
+    class FS(object):
+        def __init__(self):
+            self.text, self.mtime, self.clock = {}, {}, 1
+
+    fs = FS()
+    logging.getLogger("kmip.server.monitor").disabled = True
+
+    def fake_open(path, mode='r'):
+        return io.StringIO(fs.text[path])
+    reserved = {'default': {'preset': parsed['d1']}, 'public': {'preset': parsed['d1']}}
+    with mock.patch.object(MON, 'get_json_files', lambda d: sorted(fs.text)), \
+            mock.patch.object(MON.os.path, 'getmtime', lambda f: fs.mtime[f]), \
+            mock.patch.object(core_policy, 'open', fake_open, create=True), \
+            mock.patch.object(signal, 'signal', lambda *a: None):
+        store = dict(reserved)
+        mon = MON.PolicyDirectoryMonitor('/policies', store, live_monitoring=False)
+
+        def snap():
+            return (copy.deepcopy((mon.file_timestamps, mon.policy_cache, mon.policy_files, mon.policy_map)),
+                    dict(store), dict(fs.text), dict(fs.mtime), fs.clock)
+
+        def restore(s):
+            (ts, cache, pf, pm), st, tx, mt, ck = s
+            ts, cache, pf, pm = copy.deepcopy((ts, cache, pf, pm))
+            mon.file_timestamps, mon.policy_cache, mon.policy_files, mon.policy_map = ts, cache, pf, pm
+            store.clear()
+            store.update(st)
+            fs.text, fs.mtime, fs.clock = dict(tx), dict(mt), ck
+
+        failures = []
+        counts = {'scans': 0, 'sequences': 0}
+
+        def spec_step(spec, ev):
+            """spec: file -> (load sequence, {name: definition key}); returns the new spec"""
+            spec = dict(spec)
+            kind, f, i = ev
+            seq = 1 + max([s for s, _ in spec.values()] + [0])
+            if kind == 'remove':
+                spec.pop(f, None)
+            elif kind == 'write':
+                spec[f] = (seq, {n: d for n, d in contents[i].items() if n not in reserved})
+            # 'break': the file fails to load and changes nothing (if it never loaded it defines nothing)
+            return spec
+
+        def in_force(spec):
+            out = {}
+            for f, (seq, defs) in spec.items():
+                for n, d in defs.items():
+                    if n not in out or out[n][0] < seq:
+                        out[n] = (seq, d)
+            return {n: {'preset': parsed[d]} for n, (s, d) in out.items()}
+
+        def apply(ev):
+            kind, f, i = ev
+            path = f
+            fs.clock += 1
+            if kind == 'remove':
+                fs.text.pop(path, None)
+                fs.mtime.pop(path, None)
+            elif kind == 'write':
+                fs.text[path] = json.dumps({n: D[d] for n, d in contents[i].items()})
+                fs.mtime[path] = fs.clock
+            else:
+                fs.text[path] = BAD[i]
+                fs.mtime[path] = fs.clock
+
+        def dfs(spec, trail, k):
+            if k == 0 or len(failures) >= 3:
+                return
+            base = snap()
+            for ev in events:
+                if ev[0] == 'remove' and ev[1] not in fs.text:
+                    continue
+                apply(ev)
+                err = None
+                try:
+                    mon.scan_policies()
+                except Exception as e:
+                    err = "scan_policies raised %s: %s" % (type(e).__name__, e)
+                counts['scans'] += 1
+                spec2 = spec_step(spec, ev)
+                want = in_force(spec2)
+                got = {n: v for n, v in store.items() if n not in reserved}
+                if err is None and any(store.get(n) != reserved[n] for n in reserved):
+                    err = "a reserved policy was replaced or removed"
+                if err is None and got != want:
+                    err = "policies in force %s, specified %s" % (
+                        {n: ('ALLOW_ALL' if v == {'preset': parsed['d1']} else 'ALLOW_OWNER') for n, v in got.items()},
+                        {n: ('ALLOW_ALL' if v == {'preset': parsed['d1']} else 'ALLOW_OWNER') for n, v in want.items()})
+                if err is not None:
+                    failures.append(({"events": [list(e) for e in trail + [ev]],
+                                      "contents": contents, "bad": BAD}, err))
+                else:
+                    counts['sequences'] += 1
+                    dfs(spec2, trail + [ev], k - 1)
+                restore(base)
+                if len(failures) >= 3:
+                    return
+        dfs({}, [], depth)
+    bound = "%d files, %d events, every sequence of depth <= %d with a scan after each event" % (
+        len(files), len(events), depth)
+    _record(sess, "bounded:kmip.services.server.monitor.PolicyDirectoryMonitor.scan_policies/"
+                  "policies-in-force-follow-the-files", failures, counts['scans'], bound)
+
+
+def u_usage_mask_type(sess, tier):
+    """UsageMaskType.process_result_value(process_bind_param(S)) is S as a set, for every set S of
+    usage masks of size <= 2 (quick) / <= 3 (thorough), the empty and the full set."""
+    import itertools as it
+    from kmip.core import enums
+    from kmip.pie import sqltypes
+    t = sqltypes.UsageMaskType()
+    members = list(enums.CryptographicUsageMask)
+    k = 2 if tier == 'quick' else 3
+    fails, n = [], 0
+    subsets = [()] + [c for r in range(1, k + 1) for c in it.combinations(members, r)] + [tuple(members)]
+    for sub in subsets:
+        for order in (list(sub), list(reversed(sub)), list(sub) + list(sub[:1])):
+            n += 1
+            try:
+                back = t.process_result_value(t.process_bind_param(order, None), None)
+                ok = set(back) == set(sub) and len(back) == len(set(back))
+            except Exception as e:
+                back, ok = "%s: %s" % (type(e).__name__, e), False
+            if not ok:
+                fails.append(({"masks": [m.name for m in order]}, "stored %s, read back %s" % (
+                    [m.name for m in order], back if isinstance(back, str) else [m.name for m in back])))
+    _record(sess, "bounded:kmip.pie.sqltypes.UsageMaskType/round-trip-as-a-set", fails, n,
+            "all sets of at most %d of the %d usage masks, the empty and the full set, three orders each" % (k, len(members)))
+
+
 def units(names, ctx):
-    table = {"biginteger": u_biginteger, "bit_length": u_bit_length, "common_names": u_common_names}
+    table = {"usage_mask_type": u_usage_mask_type,"biginteger": u_biginteger, "bit_length": u_bit_length, "common_names": u_common_names,
+             "policy_monitor": u_policy_monitor}
     out = []
     for nm in names:
         f = table[nm]
